@@ -39,6 +39,11 @@ type C02Case struct {
 	NSuggest int       `json:"nsuggest"`
 	A        OrderPlan `json:"plan_a"`
 	B        OrderPlan `json:"plan_b"`
+	// Proc: "in separate processes" - the real CLI is run twice as child processes (world P), once under
+	// each order plan, over the same simulated home directory; stdout must be byte-identical.
+	Proc    bool     `json:"separate_processes,omitempty"`
+	Markers []string `json:"markers,omitempty"` // project marker files: the context analyzer's boost maps are walked too
+	Format  string   `json:"format,omitempty"`
 }
 
 var c02Entries = []string{"SearchUniversal", "SearchUniversal", "SearchUniversal", "Search", "SearchWithOptions", "SearchWithPipelineOptions", "SearchWithFuzzy", "SearchWithNLP"}
@@ -66,7 +71,7 @@ func genC02(rt *rapid.T) C02Case {
 	if c.Shipped {
 		c.Query = rapid.SampledFrom(shippedQueries).Draw(rt, "squery")
 	} else {
-		c.DB = genDB(rt, 30)
+		c.DB = genDB(rt, tierN(30, 80))
 		if rapid.IntRange(0, 4).Draw(rt, "haspersonal") == 0 {
 			c.Personal = genDB(rt, 5)
 		}
@@ -85,6 +90,11 @@ func genC02(rt *rapid.T) C02Case {
 	c.NSuggest = rapid.SampledFrom([]int{0, 1, 3, 5}).Draw(rt, "nsugg")
 	c.A = genPlan(rt, "a")
 	c.B = genPlan(rt, "b")
+	if !c.Shipped && rapid.IntRange(0, 59).Draw(rt, "proc") == 30 {
+		c.Proc = true
+		c.Markers = rapid.SliceOfNDistinct(rapid.SampledFrom(c17Markers), 0, 4, rapid.ID[string]).Draw(rt, "markers")
+		c.Format = rapid.SampledFrom([]string{"json", "list", "table"}).Draw(rt, "format")
+	}
 	return c
 }
 
@@ -206,8 +216,72 @@ func sitesOf(m map[string]int) string {
 	return strings.Join(s, ",")
 }
 
+// runC02Proc: the same invocation of the real CLI in two child processes under two order plans.
+func runC02Proc(c C02Case, o *Outcome) *Outcome {
+	mk := func() *pworld {
+		w := newPWorld()
+		w.disk.WriteRaw(pMainDB, yamlOf(c.DB), 0o644)
+		if len(c.Personal) > 0 {
+			w.disk.WriteRaw(pNotebook, yamlOf(c.Personal), 0o644)
+		}
+		for _, m := range c.Markers {
+			if strings.HasSuffix(m, "/") {
+				w.disk.MkdirAllRaw("/home/u/work/"+strings.TrimSuffix(m, "/"), 0o755)
+			} else {
+				w.disk.WriteRaw("/home/u/work/"+m, []byte("x\n"), 0o644)
+			}
+		}
+		return w
+	}
+	args := []string{"-d", pMainDB, "--format", c.Format, "-v", "--limit", "10"}
+	if c.Opts.AllPlatforms {
+		args = append(args, "--all-platforms")
+	}
+	args = append(args, strings.Fields(c.Query)...)
+	a, b := c.A, c.B
+	ra, err := mk().run(argsOf(args...), nil, &a, "pa")
+	if err != nil {
+		o.Harness = err.Error()
+		return o
+	}
+	rb, err := mk().run(argsOf(args...), nil, &b, "pb")
+	if err != nil {
+		o.Harness = err.Error()
+		return o
+	}
+	o.Evals = 2
+	o.Probes["c02.process_pairs"] = 1
+	o.Digest = digestOf([]any{stepDigest(ra), stepDigest(rb)})
+	if ra.Exit != "exit" || rb.Exit != "exit" {
+		o.Skip = true // crashes are C17's subject
+		return o
+	}
+	if string(ra.Stdout) != string(rb.Stdout) {
+		la, lb := strings.Split(string(ra.Stdout), "\n"), strings.Split(string(rb.Stdout), "\n")
+		d := 0
+		for d < len(la) && d < len(lb) && la[d] == lb[d] {
+			d++
+		}
+		get := func(l []string) string {
+			if d < len(l) {
+				return l[d]
+			}
+			return "<end>"
+		}
+		o.Violation = fmt.Sprintf("two processes running %s over the same files print different output (first difference at line %d):\n   A: %q\n   B: %q\n  map iteration order plans: A %+v, B %+v", quoteArgs(argsOf(args...)), d+1, get(la), get(lb), c.A, c.B)
+		o.Sig = "C02/process-output"
+		return o
+	}
+	o.NonTrivial = strings.Contains(string(ra.Stdout), "command") && (c.A.Seed != 0 || len(c.A.Script) > 0 || c.B.Seed != 0 || len(c.B.Script) > 0)
+	o.Behaviour = fmt.Sprintf("proc %s markers=%d out=%d", c.Format, len(c.Markers), len(ra.Stdout))
+	return o
+}
+
 func runC02(c C02Case) *Outcome {
 	o := &Outcome{Probes: map[string]int{}}
+	if c.Proc {
+		return runC02Proc(c, o)
+	}
 	simtime.Install(simtime.Epoch)
 	defer simtime.Uninstall()
 	var main, personal []byte
